@@ -368,6 +368,12 @@ def slice_(eng, st, v, lo, hi, step):
         return [(st, STuple(v.items[c(lo, None):c(hi, None)]))]
     if isinstance(v, SRef) and v.ty.kind == "list":
         return [(st, list_slice(eng, st, v, lo, hi))]
+    if isinstance(v, SBuiltin) and getattr(v, "as_value", None) is not None:
+        v = v.as_value
+    if isinstance(v, SOpaque):
+        # a slice of a value from outside the repository (the buffer of a shared-memory segment): an opaque value, function of value and bounds
+        from .engine import OPQ_SLICE
+        return [(st, SOpaque(OPQ_SLICE(v.t, lo.val() if lo is not None else Val.none, hi.val() if hi is not None else Val.none), label=(v.label or "opaque") + "[:]"))]
     raise Unsupported(f"slice of {type(v).__name__}")
 
 
@@ -1246,6 +1252,14 @@ def any_all_genexp(eng, node, st, fi):
     return out
 
 
+@_b("open")
+def b_open(eng, st, args, kw):
+    """open(path, mode): an opaque file handle; the call is logged ("open", path, mode) and may raise what the sidecar declares for `open`"""
+    eng.externals_used.add("open")
+    st.log_event("open", [a for a in args if not isinstance(a, (SFunc, SBuiltin))])
+    return eng.external_outcomes(st, "open", "open")
+
+
 @_b("any")
 def b_any(eng, st, args, kw):
     raise Unsupported("any() over symbolic iterable")
@@ -1783,6 +1797,21 @@ def with_stmt(eng, stmt, st, fi):
                     o.st.write_field(cm.t, "locked", Val.bool(z3.BoolVal(False)))
                     out.append(o)
             continue
+        if isinstance(cm, SOpaque):
+            # a context manager from outside the repository (an open file ...): entering binds the same handle (files return themselves),
+            # leaving - normally or by exception - is logged as "__exit__"; it does not swallow exceptions
+            eng.externals_used.add(f"with:{cm.label or 'opaque'}")
+            states = [s]
+            if item.optional_vars is not None:
+                states = eng.assign(item.optional_vars, cm, s, fi)
+            for s2 in states:
+                if s2.exc is not None:
+                    out.append(Outcome(s2, "raise"))
+                    continue
+                for o in eng.ex_block(stmt.body, s2, fi):
+                    o.st.log_event("__exit__", [cm])
+                    out.append(o)
+            continue
         raise Unsupported(f"with on {cm!r}")
     return out
 
@@ -1889,6 +1918,23 @@ def make_codec_dec(name):
                 out.append((eng.raise_(s, "Exception", f"{name}: undecodable bytes"), None))
         return out
     return dec_call
+
+
+_PURE_METHODS: dict = {}
+
+
+def make_pure_method(key, returns_expr):
+    def call(eng, st, args, kw):
+        if kw:
+            raise Unsupported(f"pure external method {key} called with keywords")
+        k2 = (key, len(args))
+        if k2 not in _PURE_METHODS:
+            _PURE_METHODS[k2] = z3.Function("extpure_" + key.replace(".", "_"), *([Val] * len(args)), Val)
+        t = _PURE_METHODS[k2](*[_store_val(a) for a in args])
+        ty = eng.fe.parse_type(returns_expr, st.frames[0].module) if returns_expr is not None else ANY
+        st.assume(sym.type_constraint(t, ty, eng.reg, shallow=True))
+        return [(st, SAny(t, ty) if ty.kind in ("union", "any") else sym.from_val(t, ty, eng.reg))]
+    return call
 
 
 LOCK_EXTERNALS = {"Lock.acquire": lock_acquire, "Lock.release": lock_release, "Lock.locked": lock_locked}
